@@ -48,6 +48,9 @@ func genIndConfig(rng *rand.Rand, e *IndEntity, allowDefault bool) (cfg []int, s
 			if deepTier && rng.Intn(5) == 0 {
 				cfg[i] = 10 + rng.Intn(25)
 			}
+			if rng.Intn(30) == 0 {
+				cfg[i] = 30 + rng.Intn(40) // windows of a month or a quarter (code that splits or caps long windows)
+			}
 		}
 		return cfg, 1
 	case x < 88 || !allowDefault:
@@ -95,7 +98,7 @@ func sameFloats(a, b [][]float64) (bool, string) {
 			return false, fmt.Sprintf("output %d: %d values vs %d", j, len(a[j]), len(b[j]))
 		}
 		for k := range a[j] {
-			if math.Float64bits(a[j][k]) != math.Float64bits(b[j][k]) {
+			if math.Float64bits(a[j][k]) != math.Float64bits(b[j][k]) && !(math.IsNaN(a[j][k]) && math.IsNaN(b[j][k])) {
 				return false, fmt.Sprintf("output %d position %d: %v vs %v", j, k, a[j][k], b[j][k])
 			}
 		}
